@@ -2,7 +2,7 @@
 # Runs the property's own quick check against every seeded mutant (applied to /repo, reverted afterwards).
 cd /verif
 : > /tmp/mut/detect.tsv
-for d in seeded/C*-[AB]; do
+for d in seeded/C*-[A-Z]; do
   id=$(basename $d); prop=${id%-*}
   [ -n "$1" ] && [[ ! "$id" =~ $1 ]] && continue
   cp evidence/$prop.json /tmp/.ev.bak 2>/dev/null
